@@ -46,7 +46,13 @@ func vhNow() time.Time {
 
 var hParseTable []*hTx
 
+// hzParse: decoder of the convergence harness (zz_verif_c07z.go) when set.
+var hzParse func(input []byte) (dag.Transaction, error)
+
 func hParseTx(input []byte) (dag.Transaction, error) {
+	if hzParse != nil {
+		return hzParse(input)
+	}
 	if len(input) == 2 && int(input[0]) < len(hParseTable) {
 		if t := hParseTable[int(input[0])]; t.data[1] == input[1] {
 			return t, nil
